@@ -12,6 +12,7 @@
 From Coq Require Import List ZArith Bool.
 Import ListNotations.
 From Goat Require Import Model.Client Proofs.ClientBase Proofs.ClientInv Proofs.ClientLive.
+From Goat Require Model.Server Proofs.ServerProofs Proofs.ServerInv Proofs.ServerLive.
 Open Scope Z_scope.
 
 (* bounded: in EVERY reachable state the registry and the stream-loop goroutines are no more than the calls
@@ -43,8 +44,27 @@ Theorem C14_cancel_released : forall ls s, lrun init ls = Some s -> quiescent s 
 Proof. exact C14_cancel_released_l. Qed.
 Print Assumptions C14_cancel_released.
 
-(* server side: see below (supplied by the server package as lemmas of Proofs/Server*.v):
-   C14_server_bounded / C14_server_idle are stated in this file once those lemmas exist. *)
+(* ---------- server side (Model/Server.v, proofs in Proofs/ServerInv.v, ServerLive.v) ---------- *)
+(* bounded, always: the registry of a server connection holds exactly one entry per LIVE stream handler goroutine
+   (a handler is registered from its start until its runStream goroutine has unregistered and ended; unary handlers
+   are never registered): over any history the registry is never larger than the number of RPCs in flight *)
+Theorem C14_server_bounded : forall ls s, Server.lrun Server.init ls = Some s ->
+  Server.registry_size s = length (filter Server.hs_alive (Server.hs s)).
+Proof. intros ls s H. exact (ServerLive.srv_registry_bound Server.nworkers s (ServerInv.inv_reach Server.nworkers ls s H)). Qed.
+Print Assumptions C14_server_bounded.
+
+(* idle (Q): in every reachable quiescent state in which every handler that was started has returned - however its
+   RPC ended: reply, error, reset by the peer, end of the connection - and the transport does not block writes (or the
+   connection is over), the registry is empty *)
+Theorem C14_server_idle : forall ls s, Server.lrun Server.init ls = Some s -> Server.quiescent s = true ->
+  (forall h k, nth_error (Server.hs s) h = Some k -> Server.h_returned k = true) ->
+  Server.wblock s = false \/ Server.hctx_done s = true ->
+  Server.registry_size s = 0%nat.
+Proof. intros ls s H. exact (ServerLive.srv_registry_idle Server.nworkers s (ServerInv.inv_reach Server.nworkers ls s H)). Qed.
+Print Assumptions C14_server_idle.
+
+(* ... and so are the goroutines: writer waiting, all workers idle, no handler goroutine (Props/C12.v C12_never_stalls);
+   after the end of the connection nothing at all is left (Props/C10.v C10_no_leak). *)
 
 (* ---------- the hypotheses are satisfiable ---------- *)
 Definition reply (id b : Z) : env := mkEnv id (Some (MdOk 0)) None (Some b) (Some (MdOk 0)) false.
